@@ -1875,7 +1875,7 @@ impl Property for C19 {
             }
         }
         // ---- random
-        let (n_in, n_rd) = if ctx.thorough { (90_000, 120_000) } else { (5_000, 8_000) };
+        let (n_in, n_rd) = if ctx.thorough { (75_000, 100_000) } else { (5_000, 8_000) };
         let mut r = rng.fork();
         for k in 0..n_in {
             let depth = (k % 6) as usize;
